@@ -44,6 +44,10 @@ KNOWN = {
     "monthly-surface-data-resave-attributeerror":
         "a loaded model whose surfaces have monthly data (keys ('var', to_datetime('YYYY-MM'))) cannot be saved again: "
         "to_datetime.__str__ calls strftime on the month string it keeps for 'YYYY-MM' dates (AttributeError in write_csv)",
+    "to-datetime-leap-year-always-true":
+        "model.to_datetime.is_leap_year is a method but land.py GrowingSurface.calc_crop_cover tests it as an attribute "
+        "(always true): a model built on pd.Timestamp dates simulates a different crop calendar after save/load in "
+        "non-leap years (day of year > 59)",
     "save-type-from-class-name":
         "Model.save writes type_ = class __name__ instead of the key the node is filed under in Model.nodes_type: a "
         "NonResidentialDemand added as type_='Demand' (node_type_override='NonResidentialDemand', the documented form "
@@ -287,12 +291,13 @@ def _node(g, name):
     return next(n for n in g.nodes if n["name"] == name)
 
 
-def gen_zoo(r, ndates=6, polset=None, pervious=None):
+def gen_zoo(r, ndates=6, polset=None, pervious=None, growing=True, start="2000-01-01"):
     """a model containing every node class that can run, every surface class and every arc class, with
     non-default parameter values and legal zeros; random within that frame"""
     polset = polset or r.choice(["simple", "four", "reordered", "one", "default", "default"])
     NG.set_pollutants(polset)
     g = NG.Gen(r, ndates, polset, {})
+    g.dates = NG.dates(ndates, start)
     adds, nons = g.pols()
     z = lambda *nz: r.choice((F(0),) + tuple(F(x) for x in nz))           # a legal zero or a non-default value
     dec = lambda: {r.choice(adds): {"constant": r.choice([F(1, 10), F(1, 2), F(0)]), "exponent": r.choice([F(1), F(1001, 1000)])}}
@@ -390,7 +395,8 @@ def gen_zoo(r, ndates=6, polset=None, pervious=None):
                          "infiltration_capacity": r.choice([F(1, 2), F(1, 100)]), "surface_coefficient": z(1) / 20,
                          "percolation_coefficient": z(3) / 4, "et0_coefficient": z(1) / 2, "ihacres_p": F(r.choice([1, 2])),
                          "pollutant_load": {adds[0]: F(1, 50)}, "initial_storage": g.vq(area * depth * F(2, 5) * r.choice([F(1, 2), F(9, 10)]))})
-    if polset == "default":
+    growing = growing and polset == "default"
+    if growing:
         monthly = {}
         for var in ("nhx", "noy", "srp"):
             for kind in ("dry", "wet", "fertiliser", "manure"):
@@ -398,9 +404,11 @@ def gen_zoo(r, ndates=6, polset=None, pervious=None):
                     monthly[(f"{var}-{kind}", mth)] = r.choice([F(0), F(1, 10 ** 6), F(1, 10 ** 5)])
         soil = {p: r.choice([F(1, 5), F(2), F(0)]) for p in ("phosphate", "ammonia", "nitrate", "nitrite", "org-nitrogen", "org-phosphorus")}
         soil["phosphate"] = F(6, 5)            # initial_soil_storage must be truthy and is only kept when given
-        doy = 1
-        crop = {"crop_factor_stages": [0.0, 0.0, 0.3, 0.3, 1.2, 1.2, 0.325, 0.0, 0.0],
-                "crop_factor_stage_dates": [0, doy, doy + 1, 31, 61, 113, 144, 145, 366], "sowing_day": doy + 1, "harvest_day": 144}
+        import pandas as pd
+        doy = pd.Timestamp(start).dayofyear
+        crop = {"crop_factor_stages": [0.0, 0.0, 0.3, 0.9, 1.2, 1.2, 0.325, 0.0, 0.0],
+                "crop_factor_stage_dates": [0, doy, doy + 1, doy + 30, doy + 60, doy + 112, doy + 143, doy + 144, 366],
+                "sowing_day": doy + 1, "harvest_day": doy + 143}
         for i, t in enumerate(["GrowingSurface", "IrrigationSurface", "GardenSurface", "VariableAreaSurface"]):
             s = {"type_": t, "surface": f"crop{i}", "area": F(r.choice([20, 40])), "rooting_depth": r.choice([F(1, 2), F(3, 4)]),
                  "ET_depletion_factor": r.choice([F(0), F(1, 2)]), "total_porosity": F(9, 20), "field_capacity": F(3, 10),
@@ -422,7 +430,7 @@ def gen_zoo(r, ndates=6, polset=None, pervious=None):
     g.arc(qgw, r1)
     g.arc(ld, r1)
     g.arc(ld, sw1, cap=r.choice([None, F(3)]))
-    if polset == "default":
+    if growing:
         g.arc(dres, ld)                      # garden irrigation requests
         g.arc(r1, ld, type_="PullArc")       # irrigation abstraction
     orch = [{"FWTW": "treat_water"}, {"Demand": "create_demand"}, {"NonResidentialDemand": "create_demand"}, {"Land": "run"},
@@ -492,13 +500,14 @@ def plain_pervious(cfg):
     return out
 
 
-def scaled(cfg, times):
-    """the config the saved file of a (times-1)-th generation model describes: PerviousSurface.depth * total_porosity^times"""
+def scaled(cfg, y):
+    """the config a saved file really describes: PerviousSurface.depth taken from the parsed yaml y (bit for bit, so
+    that the reference model has exactly the parameters of the loaded one)"""
     cfg = copy.deepcopy(cfg)
     for n in cfg["nodes"]:
         for s in n.get("surfaces", []):
             if s["type_"] == "PerviousSurface":
-                s["depth"] = s.get("depth", F(3, 4)) * s.get("total_porosity", F(2, 5)) ** times
+                s["depth"] = F(y["nodes"][n["name"]]["surfaces"][s["surface"]]["depth"])
     return cfg
 
 
@@ -619,14 +628,21 @@ def check_saveload(cfg, compress):
             elif d01:
                 other = [x for x in d01 if not _PERV_PATH.match(x[0])] or d01
                 bad(f"parameter snapshot of the loaded model differs from the original: {fmt_diffs(other)}")
+            for land, sname, tp in perv:
+                sd = next(x for nn in cfg["nodes"] if nn["name"] == land for x in nn["surfaces"] if x["surface"] == sname)
+                depth = sd.get("depth", F(3, 4))
+                saved = y1["nodes"][land]["surfaces"][sname]["depth"]
+                if not close(saved, float(depth), TOL) and not close(saved, float(depth * tp), TOL):
+                    bad(f"PerviousSurface {land}/{sname}: saved depth {saved} is neither the constructor value {float(depth)} "
+                        f"nor the known depth * total_porosity {float(depth * tp)}")
             # the same comparison with the known defect factored out: the loaded model must be the model of the
             # config whose pervious depths are what the file says
-            ref1 = build(scaled(cfg, 1))
+            ref1 = build(scaled(cfg, y1))
             dd = diff(model_snap(ref1), s1, TOL)
             if dd:
                 bad(f"loaded model differs from the original beyond the known pervious depth scaling: {fmt_diffs(dd)}")
             if m2 is not None:
-                ref2 = build(scaled(cfg, 2))
+                ref2 = build(scaled(cfg, y2))
                 dd = diff(model_snap(ref2), s2, TOL)
                 if dd:
                     bad(f"second-generation model differs beyond the known pervious depth scaling: {fmt_diffs(dd)}")
@@ -746,6 +762,47 @@ def probe_type_filing():
     return None, None
 
 
+def to_native_dates(m):
+    """give a model built on pd.Timestamp / pd.Period the library's own date class everywhere"""
+    from wsimod.orchestration.model import to_datetime
+    conv = lambda d: to_datetime(str(d)[:10]) if len(str(d)) > 7 else to_datetime(str(d))
+    m.dates = [conv(d) for d in m.dates]
+    for node in m.nodes.values():
+        if getattr(node, "data_input_dict", None):
+            node.data_input_dict = {(k[0], conv(k[1])): v for k, v in node.data_input_dict.items()}
+        for s in getattr(node, "surfaces", []) or []:
+            if getattr(s, "data_input_dict", None):
+                s.data_input_dict = {(k[0], conv(k[1])): v for k, v in s.data_input_dict.items()}
+    return m
+
+
+def probe_leap_year(r):
+    """a further defect of the unmodified tree (dedicated case): model.to_datetime.is_leap_year is a method, and
+    GrowingSurface.calc_crop_cover tests it as an attribute (always true): with the dates every loaded model gets, the
+    crop calendar is shifted by a day after February in non-leap years.  A model built on pd.Timestamp dates (where
+    is_leap_year is a property) therefore simulates differently after save/load."""
+    cfg = gen_zoo(r, 4, "default", pervious=False, growing=True, start="2001-03-10")
+    try:
+        m0 = build(cfg)
+        m1, _, _, err = save_load(m0, False)
+        if err:
+            return None, f"leap-year probe: {err}"
+        same_params = not diff(model_snap(m0), model_snap(m1), TOL)
+        r0, e0 = run_model(m0)
+        r1, e1 = run_model(m1)
+        rn, en = run_model(to_native_dates(build(cfg)))
+    finally:
+        NG.set_pollutants("default")
+    if e0 or e1 or en:
+        return None, f"leap-year probe runs raised: {e0} / {e1} / {en}"
+    d01, dn1 = diff_results(r0, r1, TOL), diff_results(rn, r1, TOL)
+    if same_params and d01 and not dn1 and all("surfaces/" in p or "flows/" in p or "tanks/" in p for p, _, _ in d01):
+        return "to-datetime-leap-year-always-true", None
+    if d01:
+        return None, f"leap-year probe: results differ, not explained by the date class: {fmt_diffs(dn1 or d01)}"
+    return None, None
+
+
 # ---------------------------------------------------------------------------
 # (b) pickle / resume
 # ---------------------------------------------------------------------------
@@ -777,7 +834,7 @@ def check_pickle(cfg, ks=None):
             res["skipped"] = "uninterrupted run raises: " + e
             return res
         res["nontrivial"] = any_flow(full)
-        nf = {k: norm_results({k: v}) for k, v in full.items()}
+        end_state = model_snap(full_m)
         for k in (ks or range(1, len(dates))):
             m = build(cfg)
             head, e = run_model(m, dates[:k])
@@ -808,7 +865,10 @@ def check_pickle(cfg, ks=None):
                 bad(f"pickle point {k} (after {datekey(dates[k - 1])}, {transit:.6g} in transit): resumed run differs from the "
                     f"uninterrupted run: {fmt_diffs(d)}")
             # the resumed object graph must also be in the state of the uninterrupted model at the end
-        del nf
+            d = diff(end_state, model_snap(m2), 0.0)
+            if d:
+                bad(f"pickle point {k}: state of the resumed model after the last timestep differs from the uninterrupted "
+                    f"model: {fmt_diffs(d)}")
     except Exception as ex:
         bad("monitor error: " + err_text(ex) + " | " + traceback.format_exc()[-400:])
     finally:
@@ -844,7 +904,8 @@ def run(rep, thorough):
         cfg = wellformed(NG.gen_model(r, r.choice([3, 4, 6]), polset, sizes[i % 4]))
         plan.append((cfg, [False, True] if thorough else [bool(i % 2)]))
     for i in range(n_zoo):
-        cfg = gen_zoo(r, r.choice([4, 6]), ["default", "simple", "four", "default", "reordered", "one"][i % 6], pervious=bool(i % 2))
+        cfg = gen_zoo(r, r.choice([4, 6]), ["default", "simple", "four", "default", "reordered", "one", "default"][i % 7],
+                      pervious=bool(i % 2), growing=(i % 7 != 6))
         plan.append((cfg, [False, True] if (thorough or i < 4) else [bool((i // 2) % 2)]))
     for idx, (cfg, modes) in enumerate(plan):
         for compress in modes:
@@ -876,7 +937,7 @@ def run(rep, thorough):
             elif len(rep.samples) < 1 and out["nontrivial"]:
                 rep.samples.append({"part": "saveload", "compress": compress, "size": cfg["size"], "polset": cfg["polset"],
                                     "nodes": nc, "surfaces": sc, "arcs": ac, "dates": len(cfg["dates"]), "known": sorted(out["known"])})
-    for sig, msg in (probe_growing_without_soil(r), probe_type_filing()):
+    for sig, msg in (probe_growing_without_soil(r), probe_type_filing(), probe_leap_year(r)):
         mon["cases"] += 1
         if sig:
             seen.add(sig)
@@ -932,7 +993,7 @@ def replay(rep, payload):
     part = payload.get("part")
     if part == "probe":
         out = set()
-        for sig, msg in (probe_growing_without_soil(C.rng("c14")), probe_type_filing()):
+        for sig, msg in (probe_growing_without_soil(C.rng("c14")), probe_type_filing(), probe_leap_year(C.rng("c14"))):
             if sig:
                 out.add(sig)
             if msg:
